@@ -16,7 +16,8 @@ from ..lib import *      # noqa: F401,F403
 from ..monitors import LedgerScope
 
 MODULE = __name__
-ANSWERS = [TRAVERSE_SKIP_CURRENT, TRAVERSE_SKIP_SIBLINGS, TRAVERSE_END, CIF_CLIENT_ERROR, 77]
+# positive codes include ones the library itself uses internally (CIF_FINISHED = 1, CIF_EMPTY_LOOP = 36)
+ANSWERS = [TRAVERSE_SKIP_CURRENT, TRAVERSE_SKIP_SIBLINGS, TRAVERSE_END, CIF_CLIENT_ERROR, 77, CIF_FINISHED, CIF_EMPTY_LOOP]
 
 
 class Mismatch(Exception):
